@@ -16,7 +16,7 @@ from ..world import real_eval
 
 ID = 'C13'
 LEVEL = 'exploration'
-TIERS = {'quick': 16000, 'thorough': 800000}
+TIERS = {'quick': 16000, 'thorough': 400000}
 RULE = ('seeded histories of 3-12 evals on one parser over one host names mapping (lists, dicts, nested, a host '
         'collections.defaultdict / OrderedDict, strings, numbers); each eval applies a non-mutator drawn from the LIVE '
         'function table (every entry except push pop insert remove __setitem__ __setitem_with_op__ __delitem__) to a '
